@@ -240,6 +240,7 @@ Inductive upstream :=
          (now, size) are the timestamp and size of `stored`.  Later loads report `stored`: mtime given by the file
          system / second kept by sqlite, size and bytes of what was written; for a linked tile see `entry` above. *)
 | UFill (body : Z)      (* error handler answered with a fill image, `cache: false` *)
+| UFillStale (body : Z) (* the same with `authorize_stale: true`: a stale tile in the cache is preferred to the fill image *)
 | UErr.                 (* SourceError without handler: error page, no cache headers involved *)
 
 Definition info_of_entry (e : entry) : tinfo :=
@@ -255,6 +256,7 @@ Definition load (st : store) (k : Z) (up : upstream) : store * option (tinfo * Z
       (update st k stored,
        Some ({| ti_cacheable := true; ti_ts := Some now; ti_size := Some size |}, body))
     | UFill body => (st, Some ({| ti_cacheable := false; ti_ts := None; ti_size := None |}, body))
+    | UFillStale body => (st, Some ({| ti_cacheable := false; ti_ts := None; ti_size := None |}, body))
     | UErr => (st, None)
     end
   end.
@@ -274,6 +276,9 @@ Definition load_stale (st : store) (k : Z) (up : upstream) : store * option (tin
       (update st k stored,
        Some ({| ti_cacheable := true; ti_ts := Some now; ti_size := Some size |}, body))
     | UFill body => (st, Some ({| ti_cacheable := false; ti_ts := None; ti_size := None |}, body))
+    | UFillStale _ => (st, Some (info_of_entry e, e_body e))
+         (* _create_single_tile: `if source.authorize_stale and self.is_stale(tile): load_tile; return [tile]` - the exit
+            lies before the new source is attached; is_stale has re-read the stored timestamp and size *)
     | UErr => (st, Some (info_of_entry e, e_body e))
     end
   end.
